@@ -360,7 +360,9 @@ def gen_queue() -> str:
         elif e[0] == "commit":
             prog.append("QCommit")
     seq = [e[0] for e in ev if e[0] in ("exec", "commit", "if", "return", "else", "endif", "rollback")]
-    if seq != ["exec", "if", "return", "else", "endif", "exec", "commit"]:
+    # (a rollback before the not-found return is accepted: it ends the transaction the DELETE opened, changes nothing)
+    if seq not in (["exec", "if", "return", "else", "endif", "exec", "commit"],
+                   ["exec", "if", "rollback", "return", "else", "endif", "exec", "commit"]):
         T._fail(D, mv, "move_to_dlq: control skeleton changed: " + " ".join(seq))
     out.append("Definition move_to_dlq_prog : list qstmt := [" + "; ".join(prog) + "].")
     rp = _method(D, "SqliteDLQMixin", "replay_dlq")
@@ -385,7 +387,8 @@ def gen_queue() -> str:
         elif e[0] == "commit":
             prog.append("QCommit")
     seq = [e[0] for e in ev if e[0] in ("exec", "commit", "if", "return", "else", "endif", "rollback")]
-    if seq != ["exec", "if", "return", "else", "endif", "exec", "commit", "return"] or replay_utc is None:
+    if seq not in (["exec", "if", "return", "else", "endif", "exec", "commit", "return"],
+                   ["exec", "if", "rollback", "return", "else", "endif", "exec", "commit", "return"]) or replay_utc is None:
         T._fail(D, rp, "replay_dlq: control skeleton changed: " + " ".join(seq))
     out.append("Definition replay_dlq_prog : list qstmt := [" + "; ".join(prog) + "].")
     out.append(f"Definition replay_attempts : Z := {replay_att}.")
